@@ -81,7 +81,7 @@ func (c Case) Input(doc any) ([]byte, error) {
 		if !ok {
 			return nil, fmt.Errorf("jsonl needs an array")
 		}
-		var b bytes.Buffer
+		b := bytes.NewBuffer([]byte{}) // never nil: an empty document is still a stdin
 		for _, e := range a {
 			l, err := json.Marshal(e)
 			if err != nil {
@@ -470,6 +470,17 @@ func wantValue(c Case, r core.Result, want any) *core.Violation {
 		core.Count("null-element-unasserted", 1)
 		return nil
 	}
+	if a, ok := want.([]any); ok && c.Type == "jsonl" && c.Op == "elem" {
+		for _, e := range a {
+			if e == nil {
+				// `[[` prints a nested array as jsonl lines and a null cannot be a
+				// line of its own in murex (its JSON marshaller refuses a bare
+				// null): null handling is not stated
+				core.Count("null-element-unasserted", 1)
+				return nil
+			}
+		}
+	}
 	if r.Exit != 0 || len(r.Stderr) > 0 {
 		return unexpected(c, r, want)
 	}
@@ -490,14 +501,6 @@ func wantValue(c Case, r core.Result, want any) *core.Violation {
 	if c.Type == "jsonl" {
 		// `[[` re-marshals a nested array as jsonl lines
 		if a, ok := want.([]any); ok {
-			for _, e := range a {
-				if e == nil {
-					// a null cannot be a jsonl line of its own in murex (its JSON
-					// marshaller refuses a bare null): null handling is not stated
-					core.Count("null-element-unasserted", 1)
-					return nil
-				}
-			}
 			got, err := parseLines(r.Stdout)
 			if err != nil || !equal(got, a) {
 				return unexpected(c, r, want)
@@ -829,12 +832,13 @@ func known(c Case, v *core.Violation) string {
 			}
 		}
 		// a negative key is not "all digits", so the jsonl indexer treats the
-		// request as a table-column lookup: in-range negative indexes fail
-		if neg && (v.Kind == "unexpected-error" || v.Kind == "value") {
+		// request as a table-column lookup: in-range negative indexes fail with
+		// an unrelated error, and on an empty document nothing is reported
+		if neg && (v.Kind == "unexpected-error" || v.Kind == "value" || v.Kind == "no-error") {
 			return "C16-jsonl-negative-index-unsupported"
 		}
 		// the jsonl indexer filters lines and never notices a missing one
-		if outside && v.Kind == "no-error" {
+		if outside && !neg && v.Kind == "no-error" {
 			return "C16-jsonl-index-out-of-range-silent"
 		}
 	case c.Type == "jsonl" && c.Op == "elem" && isArray && v.Kind == "unexpected-error" &&
